@@ -32,7 +32,7 @@ ASSUMPTIONS = [
     "the schedules observed are those multiprocessing.Pool produces on this machine (fork start method); injected delays widen the set but the evidence only claims the assignments actually logged",
 ]
 NOT_REACHED = ["figure output (--no_figure is always set)", "more than 8 files per batch", "start methods other than fork"]
-BUDGET = {"quick": dict(cases=4, seconds=80, shards=4),
+BUDGET = {"quick": dict(cases=8, seconds=70, shards=4),
           "thorough": dict(cases=64, seconds=900, shards=16)}
 REQUIRED = ["mon:csv-equals-library-pipeline", "mon:every-file-processed-exactly-once", "task_events", "cli_runs"]
 
@@ -89,7 +89,7 @@ def run_cli(workdir, pre_f, proc_f, files, nproc, dmc, dfn, delay_seed):
     env.update(HVSRPY_VERIF="1", HVSRPY_VERIF_LOG=log, HVSRPY_VERIF_DELAYS=f"{delay_seed}:150")
     cmd = [sys.executable, "-W", "ignore", "-m", "hvmon.cli.launcher", "--no_figure",
            "--preprocessing_settings_file", pre_f, "--processing_settings_file", proc_f,
-           "--distribution_mc", dmc, "--distribution_fn", dfn, "--nproc", str(nproc)] + list(files)
+           "--distribution_mc", dmc, "--distribution_fn", dfn] + ([] if nproc is None else ["--nproc", str(nproc)]) + list(files)
     p = subprocess.run(cmd, cwd=workdir, env=env, capture_output=True, text=True, timeout=900)
     events = []
     if os.path.exists(log):
@@ -146,13 +146,13 @@ def fam_batch(ctx, rng):
                 refs[fn] = f.read()
         ctx.describe(kind=kind, window_length=wl, rates=rates, files=files, distribution_mc=dmc, distribution_fn=dfn)
         nb = 3 if ctx.tier == "quick" else 6
-        nprocs = [1, 2, 3, nfiles, 16]
+        nprocs = [1, 2, 3, nfiles, 16, None]          # None: the CLI's default (cpu count - 1)
         seen_nontrivial = False
         for b in range(nb):
             order = list(rng.permutation(nfiles)) if b else list(range(nfiles))
             if b == 1:
                 order = sorted(range(nfiles), key=lambda i: -rates[i])      # large FFT first, small ones after it
-            nproc = int(nprocs[b % len(nprocs)]) if b < 2 else int(rng.choice(nprocs))
+            nproc = nprocs[b % len(nprocs)] if b < 2 else nprocs[int(rng.integers(0, len(nprocs)))]
             batch = [files[i] for i in order]
             for fn in files:
                 c = os.path.join(d, os.path.splitext(fn)[0] + ".csv")
